@@ -161,6 +161,16 @@ class MiniInterp:
             if fi.is_method() and not fi.is_static() and params:
                 env[params[0]] = self_obj
                 params = params[1:]
+            va, kwa = fi.node.args.vararg, fi.node.args.kwarg
+            npos = len(fi.node.args.posonlyargs) + len(fi.node.args.args) - (1 if fi.is_method() and not fi.is_static() else 0)
+            if va is not None:
+                env[va.arg] = tuple(pos[npos:])
+                pos = pos[:npos]
+                params = [p for p in params if p != va.arg]
+            if kwa is not None:
+                params = [p for p in params if p != kwa.arg]
+                env[kwa.arg] = {k: v for k, v in kwargs.items() if k not in params}
+                kwargs = {k: v for k, v in kwargs.items() if k in params}
             if len(pos) > len(params):
                 raise Unknown(f"too many arguments for {fi.local}")
             for p, a in zip(params, pos):
@@ -405,6 +415,12 @@ class MiniInterp:
                 return r
         if isinstance(v, Lin):
             raise Unknown("truth value of a symbolic number")
+        if isinstance(v, Sym) and v.cls is not None:
+            for nm in ("__bool__", "__len__"):
+                m = v.cls.find_method(nm)
+                if m is not None:
+                    r = self.call(self.prj.func(m.qual), [], {}, v)
+                    return bool(r) if isinstance(r, (bool, int)) else self.truth(r)
         if isinstance(v, (Sym, Closure, BoundFunc)):
             return True
         if isinstance(v, ISet):
